@@ -752,6 +752,12 @@ func CheckC04(rr *RunResult, res *vprop.Result) {
 		for i := pr.WaitRetIdx + 1; i < len(rr.Events); i++ {
 			e := rr.Events[i]
 			if (e.Kind == EvWriteBegin || e.Kind == EvWriteEnd) && e.PlanIdx == pi {
+				// "it never changes afterwards": a write that stores exactly what the returned plan already holds for
+				// that object changes nothing and is not judged
+				if st, n, ok := stateByTag(pr.Final, e.W.Tag); ok && st != nil && st.Status == e.W.State.Status &&
+					st.Start.Equal(e.W.State.Start) && st.End.Equal(e.W.State.End) && (n < 0 || n == len(e.W.Attempts)) {
+					continue
+				}
 				res.Fail("C04/write-after-wait-return", "plan p%d: storage write of %s (%v) at log %d after Wait returned (log %d)\n%s", pi, e.Tag, e.W.State.Status, i, pr.WaitRetIdx, FormatEvents(rr.Events, 60))
 				return
 			}
@@ -763,6 +769,64 @@ func CheckC04(rr *RunResult, res *vprop.Result) {
 			}
 		}
 	}
+}
+
+// stateByTag finds the state (and, for actions, the number of attempts; -1 otherwise) of the object with the given
+// log tag ("p0", "p0/pre", "p0/pre/a0", "p0/b1", "p0/b1/cont", "p0/b1/s0", "p0/b1/s0/a1") in a plan.
+func stateByTag(p *workflow.Plan, tag string) (*workflow.State, int, bool) {
+	if p == nil {
+		return nil, -1, false
+	}
+	parts := strings.Split(tag, "/")
+	parts = parts[1:] // plan index
+	if len(parts) == 0 {
+		return p.State, -1, true
+	}
+	groupOf := func(get func(int) *workflow.Checks, rest []string) (*workflow.State, int, bool) {
+		gi := groupIndex(rest[0])
+		if gi < 0 {
+			return nil, -1, false
+		}
+		c := get(gi)
+		if c == nil {
+			return nil, -1, false
+		}
+		if len(rest) == 1 {
+			return c.State, -1, true
+		}
+		var ai int
+		if _, err := fmt.Sscanf(rest[1], "a%d", &ai); err != nil || ai >= len(c.Actions) {
+			return nil, -1, false
+		}
+		return c.Actions[ai].State, len(c.Actions[ai].Attempts), true
+	}
+	if !strings.HasPrefix(parts[0], "b") {
+		return groupOf(func(gi int) *workflow.Checks { return PlanGroup(p, gi) }, parts)
+	}
+	var bi int
+	if _, err := fmt.Sscanf(parts[0], "b%d", &bi); err != nil || bi >= len(p.Blocks) {
+		return nil, -1, false
+	}
+	b := p.Blocks[bi]
+	if len(parts) == 1 {
+		return b.State, -1, true
+	}
+	if strings.HasPrefix(parts[1], "s") {
+		var si int
+		if _, err := fmt.Sscanf(parts[1], "s%d", &si); err != nil || si >= len(b.Sequences) {
+			return nil, -1, false
+		}
+		q := b.Sequences[si]
+		if len(parts) == 2 {
+			return q.State, -1, true
+		}
+		var ai int
+		if _, err := fmt.Sscanf(parts[2], "a%d", &ai); err != nil || ai >= len(q.Actions) {
+			return nil, -1, false
+		}
+		return q.Actions[ai].State, len(q.Actions[ai].Attempts), true
+	}
+	return groupOf(func(gi int) *workflow.Checks { return BlockGroup(b, gi) }, parts[1:])
 }
 
 func (rr *RunResult) hardLimitOnly() bool {
